@@ -24,7 +24,7 @@ def run(ctx):
         sweeps.router_retain(ctx, F, "C08.D2", m)
     bodies = [F.impl_method("futures_sink::Sink", sweeps.FAN, m) for m in sweeps.METHODS]
     sites = panics.analyse(ctx, bodies, "C08.D2.sweep-bound", include_alloc=False)
-    ctx.floor("C08.D2.sweep-bound.sites", len(sites), 8)
+    ctx.floor("C08.D2.sweep-bound.bodies", len(bodies), 4)
     # Router::start_send: eviction of exactly the addressed entry on its error
     rs = F.impl_method("futures_sink::Sink", sweeps.ROUTER, "start_send")
     ctx.touch(rs)
